@@ -98,3 +98,21 @@ def register(claim) -> None:
         "leaving waiter, expiry or eviction never harms the invocation or other waiters. Obligations C13.1-C13.4.",
         "Trusts asyncio.shield / Task semantics.",
     )
+    claim(
+        "C08",
+        "faithful-comprehension (fan-out) shape analysis + abstract evaluation of the error guards over len in {0,1,2} + CFG must-pass for roll-back",
+        "Decides that the enter/exit fan-outs cover every disposable exactly once with the body's exception details, that both gathers observe "
+        "every outcome (return_exceptions), that collected cleanup errors are raised whenever there is at least one, that a partial enter failure "
+        "exits the entered ones before raising and never lets the body run, the normalisation of yielded state and its flow into the scope. "
+        "Obligations C08.1-C08.8; C08.5c (cancellation while entering concurrently) is a recorded known finding.",
+        "Completion orders inside asyncio.gather are not analysed (gather awaits everything it is handed - trusted).",
+    )
+    claim(
+        "C10",
+        "try/handler coverage + escape-set summaries of the logging helpers + scenario-pruned store analysis (fold order) + who-may-touch scan of _nested",
+        "Decides that recording cannot raise Exception into user code (whole body protected, handler and context logging non-raising), that a "
+        "metric lands only in the ContextVar-current scope, that the per-type value is the left fold merge(previous, new) with presence tested by "
+        "identity, that nested scopes are kept and folded in creation order, and that spawned tasks are awaited before the metrics scope is finished. "
+        "Obligations C10.1-C10.6.",
+        "Attribution under interleavings follows from ContextVar semantics (trusted); logging.Logger.log is assumed non-raising.",
+    )
